@@ -99,6 +99,11 @@ def run(R):
     # the neutral public key: h*A vanishes, the equation reads Encode(S*B) = R
     for S2, name in [(0, "0"), (1, "1"), (cc.L - 1, "L-1"), (cc.L - 2, "L-2"), (2 ** 252, "2^252")]:
         add(rb("nm", 5), ident, cc.enc_mul_base(S2) + cc.le32(S2), ("neutral", name))
+    # non-canonical encodings of R (the neutral element as y = p + 1, and / or with the sign bit set although x = 0): the comparison is on the bytes of R
+    for i, renc in enumerate([cc.le32(1 | (1 << 255)), cc.le32(cc.P + 1), cc.le32((cc.P + 1) | (1 << 255))]):
+        if renc != ident:
+            add(rb("nm", 5), ident, renc + cc.le32(0), ("neutral-noncanonical-R", i))
+            add(m, pk, renc + cc.le32(0), ("honest-noncanonical-R", i))
     js = range(0, 252) if thorough else list(range(120, 130)) + list(range(160, 232, 4)) + [0, 56, 112, 125, 167, 168, 223, 224, 251]
     for j in sorted(set(js)):
         S2 = 2 ** 252 + 2 ** j
